@@ -248,6 +248,13 @@ def check_tree(cfg, mols, noise, missing_guard):
             p = d / "tree" / rel
             p.parent.mkdir(parents=True, exist_ok=True)
             p.write_text(text)
+        # decoys: files with the same relative names directly under the working directory, defining other values;
+        # a reader that resolves a nested include against the cwd would silently read them
+        for rel, text in files.items():
+            if rel != "sys.top":
+                p = d / rel
+                p.parent.mkdir(parents=True, exist_ok=True)
+                p.write_text(text.replace("72.0", "99.0").replace("36.0", "98.0").replace(" 0.33 500", " 0.99 9999"))
         (d / "flat").mkdir()
         (d / "flat" / "sys.top").write_text(flattext)
         cwd = os.getcwd()
